@@ -289,15 +289,23 @@ def cases(tier, rng):
 
 # --------------------------------------------------------------------------- execution and verdicts
 
+EXTERNAL_SIGNALS = (2, 9, 15)
+
+
 def compile_retry(d, files):
     """the CLI binary is briefly absent while another check's build_cli() relinks it: wait instead of aborting the whole run"""
     for attempt in range(40):
         try:
-            return R.compile_capy(d, files)
+            c = R.compile_capy(d, files)
         except C.Inconclusive:
             if attempt == 39:
                 raise
             time.sleep(1.5)
+            continue
+        # SIGINT / SIGKILL / SIGTERM come from outside (another job's cleanup), not from the compiler: run again
+        if c.sig in EXTERNAL_SIGNALS and not c.timed_out and attempt < 3:
+            continue
+        return c
 
 
 def run_case(arg):
@@ -334,8 +342,8 @@ def judge(case, files, obs, c, r):
     wit = {"files": files, "kind": case["kind"], "position": case["position"], "sub": case["sub"], "layout": case["layout"], "value": case["value"],
            "expect": case["expect"], "obs": obs}
     tup = f"{case['kind']}|{case['position']}/{case['sub']}"
-    if c.timed_out or c.cpu_exceeded:
-        return "inconc", None, f"watchdog: {name}", None
+    if c.timed_out or c.cpu_exceeded or c.sig in EXTERNAL_SIGNALS:
+        return "inconc", None, f"watchdog / killed from outside (signal {c.sig}): {name}", None
     if c.internal_error:
         return "viol", {"key": "internal_error", "sig": "internal_error|" + c.panic_sig(),
                         "what": f"internal compiler error for {name} (expected: {case['expect']}): {c.brief()[:300]}", "witness": wit}, None, None
